@@ -15,6 +15,26 @@ SUCCESS = {'banner': '220', 'EHLO': '250', 'LHLO': '250', 'HELO': '250', 'STARTT
 CONNECTION_FAULTS = ('disconnect', 'reset', 'malformed', 'badcode')
 
 
+def parse_path(line, prefix_len):
+    """The address between '<' and the matching '>' of a MAIL/RCPT line, honouring quoted strings and quoted-pairs."""
+    i = line.index(b'<', prefix_len - 1) + 1
+    j = i
+    quoted = False
+    while j < len(line):
+        c = line[j:j + 1]
+        if quoted:
+            if c == b'\\':
+                j += 1
+            elif c == b'"':
+                quoted = False
+        elif c == b'"':
+            quoted = True
+        elif c == b'>':
+            break
+        j += 1
+    return line[i:j].decode('utf-8', 'replace')
+
+
 class StagePeer(object):
     """script: dict 'mK:STAGE' or 'STAGE' -> outcome; outcome in
     '2xx' | '4xx' | '5xx' | '500' | 'malformed' | 'badcode' | 'disconnect' | 'reset'."""
@@ -131,10 +151,10 @@ class StagePeer(object):
             self._reset_tx()
             self.msg = self.nmail
             self.nmail += 1
-            self.sender = line[len('MAIL FROM:<'):line.index(b'>')].decode('utf-8', 'replace')
+            self.sender = parse_path(line, len('MAIL FROM:<'))
             self._serve('MAIL', 'MAIL')
         elif verb == 'RCPT':
-            addr = line[len('RCPT TO:<'):line.rindex(b'>')].decode('utf-8', 'replace')
+            addr = parse_path(line, len('RCPT TO:<'))
             code = self._serve('RCPT%d' % self.nrcpt, 'RCPT')
             self.nrcpt += 1
             self.rcpts.append((addr, isinstance(code, str) and code.startswith('2')))
@@ -211,3 +231,12 @@ class StubClientContext(object):
 
     def session_stats(self):
         return {}
+
+
+def kill_relay(relay):
+    """RelayPool.kill() iterates over the live set while the clients' links remove themselves from it."""
+    for client in list(getattr(relay, 'pool', [])):
+        try:
+            client.kill(block=False)
+        except Exception:
+            pass
